@@ -54,9 +54,9 @@ class Servers(object):
         self.started += 1
         return p
 
-    def request(self, hashseed, job_path, variant, out, log):
+    def request(self, hashseed, job_path, variant, out, log, mode='fork'):
         p = self.get(hashseed)
-        p.stdin.write(json.dumps({'job': job_path, 'variant': variant, 'out': out, 'log': log}) + '\n')
+        p.stdin.write(json.dumps({'job': job_path, 'variant': variant, 'out': out, 'log': log, 'mode': mode}) + '\n')
         p.stdin.flush()
         line = p.stdout.readline()
         if not line:
@@ -116,12 +116,12 @@ def write_job_dir(job, jobdir):
     return path
 
 
-def run_variant(jobdir, job_path, hashseed, variant, tag):
+def run_variant(jobdir, job_path, hashseed, variant, tag, mode='fork'):
     out = os.path.join(jobdir, 'out', tag + '.gir')
     log = os.path.join(jobdir, 'out', tag + '.log')
     if os.path.exists(out):
         os.unlink(out)
-    rep = servers().request(hashseed, job_path, variant, out, log)
+    rep = servers().request(hashseed, job_path, variant, out, log, mode)
     data = None
     if os.path.exists(out):
         with open(out, 'rb') as f:
@@ -271,9 +271,54 @@ def variant_to_request(job, v, jobdir, cachedir, state):
     return req
 
 
-def run_job_spec(job, variants, keep_dir=None):
-    """Runs baseline + variants.  Returns (result dict).  Raises ServerError on harness trouble."""
-    jobdir = keep_dir or tempfile.mkdtemp(prefix='verif-scan-')
+def run_job_spec(job, variants, keep_dir=None, mode=None):
+    """Runs baseline + variants.  The baseline always runs in a pristine forked child.  Variants
+    run in-process in the per-hash-seed servers by default (fork + copy-on-write does not scale
+    in this VM); if any variant differs, the whole job is run again with every variant in a
+    pristine forked child and only what differs *there* is reported, so process-global state
+    leaking between in-process runs can never become a verdict."""
+    mode = mode or os.environ.get('VERIF_E2_MODE', 'inproc')
+    res = _run_job_spec(job, variants, keep_dir, mode)
+    if res['mismatches'] and mode != 'fork':
+        first = res['mismatches']
+        res = _run_job_spec(job, variants, keep_dir, 'fork')
+        res['confirmed_in_fork_mode'] = bool(res['mismatches'])
+        if not res['mismatches']:
+            res['inproc_only'] = [{'variant': m['variant'], 'diff': m['diff']} for m in first[:2]]
+    return res
+
+
+def scratch_dir_for(job):
+    """A scratch directory whose *name is a function of the job*, so that anything that depends on
+    absolute paths (e.g. hashes of file positions) replays exactly."""
+    h = hashlib.sha256(json.dumps(job, sort_keys=True, default=str).encode()).hexdigest()[:16]
+    base = os.path.join(tempfile.gettempdir(), 'verif-scan-' + h)
+    for suffix in ('', '-b', '-c', '-d'):
+        d = base + suffix
+        try:
+            os.mkdir(d)
+        except FileExistsError:
+            owner = None
+            try:
+                owner = int(open(os.path.join(d, 'owner.pid')).read())
+                os.kill(owner, 0)
+            except (OSError, ValueError):
+                owner = None
+            if owner is not None:
+                continue                     # a live process is using it (concurrent check)
+            shutil.rmtree(d, ignore_errors=True)
+            try:
+                os.mkdir(d)
+            except FileExistsError:
+                continue
+        with open(os.path.join(d, 'owner.pid'), 'w') as f:
+            f.write(str(os.getpid()))
+        return d
+    return tempfile.mkdtemp(prefix='verif-scan-')
+
+
+def _run_job_spec(job, variants, keep_dir, mode):
+    jobdir = keep_dir or scratch_dir_for(job)
     res = {'mismatches': [], 'variants': 0, 'cache_effects': {}, 'schedules': [], 'baseline_status': None}
     try:
         job_path = write_job_dir(job, jobdir)
@@ -293,7 +338,7 @@ def run_job_spec(job, variants, keep_dir=None):
                 apply_cache_step(v['step'], jobdir, cachedir, state)
                 before = cache_snapshot(cachedir)
             req = variant_to_request(job, v, jobdir, cachedir, state)
-            r = run_variant(jobdir, job_path, v['hashseed'], req, 'v%d' % i)
+            r = run_variant(jobdir, job_path, v['hashseed'], req, 'v%d' % i, mode)
             if v.get('one_shot'):
                 servers().stop(v['hashseed'])
             res['variants'] += 1
@@ -320,6 +365,8 @@ def run_job_spec(job, variants, keep_dir=None):
     finally:
         if keep_dir is None:
             shutil.rmtree(jobdir, ignore_errors=True)
+        else:
+            shutil.rmtree(os.path.join(jobdir, 'cache'), ignore_errors=True)
 
 
 def first_diff(a, b):
@@ -388,6 +435,7 @@ def exec_job(args):
     out['hashseeds'] = sorted({v['hashseed'] for v in variants})
     out['sorted_obs'] = sibling_order_observation(res['baseline_data']) if res.get('baseline_data') else None
     out['wall'] = time.monotonic() - t0
+    out['inproc_only'] = res.get('inproc_only')
     if res['mismatches']:
         out['violation'] = res['mismatches'][0]
         out['n_mismatches'] = len(res['mismatches'])
